@@ -235,6 +235,13 @@ struct HStopSource {
 template <class F> struct HStopCallback;
 struct HStopToken {
   HStopSource* s = nullptr;
+  // like std::stop_token (and any token that owns shared state): a moved-from token is disengaged
+  HStopToken() noexcept = default;
+  explicit HStopToken(HStopSource* src) noexcept : s(src) {}
+  HStopToken(const HStopToken&) noexcept = default;
+  HStopToken(HStopToken&& o) noexcept : s(o.s) { o.s = nullptr; }
+  HStopToken& operator=(const HStopToken&) noexcept = default;
+  HStopToken& operator=(HStopToken&& o) noexcept { s = o.s; if (&o != this) o.s = nullptr; return *this; }
   template <class F> using callback_type = HStopCallback<F>;
   bool stop_requested() const noexcept { if (!s) return false; s->polls++; s->note_use("stop_requested()"); return s->stopped; }
   bool stop_possible() const noexcept { return s != nullptr; }
